@@ -19,7 +19,7 @@ def make_plan(ths, tier, rnd):
         api = histories.api_of(sig, modelcheck.module_path(theory))
         n = SIZE.get(theory, 2)
         for _ in range(10 if thorough else 6):
-            f1, f2, extra = histories.family_c07(sig, api, rnd, n, rnd.randint(1, 4), 4 if thorough else 3)
+            f1, f2, extra = histories.family_c07(sig, api, rnd, n, rnd.randint(1, 4), 4 if thorough else 3, stages=stages)
             for fam_members in [f1, f2] + extra:
                 fam += 1
                 for steps in fam_members:
